@@ -77,7 +77,8 @@ let out_time = function OutSn (t, _) | OutMq (t, _) | OutCancel (t, _) | OutEnd 
 type profile = { p_auth : int; p_sleep : int; p_broker_pub : int; p_preconnect : int; p_will : int; p_malformed : int;
                  p_exhaust : bool; p_vanish : bool }
 
-let gen_history (idx : int) (prof : profile) (oc : out_channel) =
+(* the configuration part of an H line *)
+let draw_cfg (prof : profile) : string =
   let auth = rnd 100 < prof.p_auth in
   let has_user = rnd 3 = 0 in
   let rdelay = pick [300; 1000; 1500] in
@@ -85,12 +86,17 @@ let gen_history (idx : int) (prof : profile) (oc : out_channel) =
   let predef =
     if prof.p_exhaust then
       (* all but a handful of topic IDs are predefined for every client: a few registrations exhaust the space *)
-      Printf.sprintf "x2a:%d-65534=%s%s" (4 + rnd 10) (hex_of_bytes (bs "p/x"))
+      Printf.sprintf "x2a:%s%d-65534=%s%s" (if coin () then "1=" ^ hex_of_bytes (bs "p/1") ^ "," else "") (4 + rnd 10) (hex_of_bytes (bs "p/x"))
         (if coin () then ";" ^ hex_of_bytes (bs "cl1") ^ ":2=" ^ hex_of_bytes (bs "p/1") else "")
     else gen_predef () in
-  let hline = Printf.sprintf "H %d auth=%d user=%s pass=%s rdelay=%d rcount=%d predef=%s" idx (if auth then 1 else 0)
-      (if has_user then hex_of_bytes (bs "gwuser") else "-") (if has_user && coin () then hex_of_bytes (bs "gwpass") else "-")
-      rdelay rcount predef in
+  Printf.sprintf "auth=%d user=%s pass=%s rdelay=%d rcount=%d predef=%s" (if auth then 1 else 0)
+    (if has_user then hex_of_bytes (bs "gwuser") else "-") (if has_user && coin () then hex_of_bytes (bs "gwpass") else "-")
+    rdelay rcount predef
+
+let gen_history ?(cfgstr : string option) (idx : int) (prof : profile) (oc : out_channel) =
+  let cfgstr = match cfgstr with Some c -> c | None -> draw_cfg prof in
+  let hline = Printf.sprintf "H %d %s" idx cfgstr in
+  let rdelay = int_of_string (Hashtbl.find (Gw_io.kv_tbl (split_on ' ' cfgstr)) "rdelay") in
   let cfg = Gw_io.parse_cfg (List.tl (List.tl (split_on ' ' hline))) in
   output_string oc (hline ^ "\n");
   let s = ref (init_state cfg) in
@@ -120,7 +126,8 @@ let gen_history (idx : int) (prof : profile) (oc : out_channel) =
   let emit_or_skip text = if not (emit text) then (ignore (emit "ADV 1"); ignore (emit text)) in
   let adv_safe d = let rec go d k = if k > 6 then () else if not (emit (Printf.sprintf "ADV %d" d)) then go (d + 1 + rnd 3) (k + 1) in go (max 1 d) 0 in
   let live_mids () = keys !s.gw_by_id in
-  let reg_ids () = keys !s.gw_registered in
+  (* topic IDs a client may plausibly use: registered ones and every ID the gateway ever told it *)
+  let reg_ids () = List.sort_uniq compare (keys !s.gw_registered @ List.map (fun (i, _) -> int_of_n i) !s.gw_handed_out) in
   let some_mid () = match live_mids () with [] -> fresh_mid () | l -> if rnd 5 = 0 then fresh_mid () else pick l in
   let some_tid () = match reg_ids () with [] -> 1 + rnd 3 | l -> if rnd 6 = 0 then 1 + rnd 70000 land 65535 else pick l in
   let nlen = 4 + rnd 36 in
@@ -280,6 +287,17 @@ let profiles = [|
   { p_auth = 20; p_sleep = 3; p_broker_pub = 35; p_preconnect = 5; p_will = 10; p_malformed = 1; p_exhaust = false; p_vanish = false };   (* broker publishes, retries *)
   { p_auth = 10; p_sleep = 30; p_broker_pub = 10; p_preconnect = 3; p_will = 5; p_malformed = 0; p_exhaust = false; p_vanish = true };   (* long sleeps, the client vanishes *)
 |]
+
+(* groups of k histories that share one configuration: the sessions of one gateway (C15) *)
+let run_multi (seed : int) (groups : int) (k : int) (out : string) =
+  seed_rng seed;
+  let oc = if out = "-" then stdout else open_out out in
+  for g = 0 to groups - 1 do
+    let prof = profiles.(g mod 4) in
+    let cfgstr = draw_cfg prof in
+    for j = 0 to k - 1 do gen_history ~cfgstr (g * k + j) profiles.((g + j) mod 4) oc done
+  done;
+  if out <> "-" then close_out oc
 
 let run (seed : int) (n : int) (out : string) =
   seed_rng seed;
